@@ -151,6 +151,10 @@ func c01Run(c *core.Ctx, idx int, h *hist.History, l *hist.Layout, tables []*his
 		c.Violation("c01:"+d.Kind, d.String(), witnessOf(scn, h, s, map[string]interface{}{"stream_err": errStr(res.Err)}))
 		return
 	}
+	if why := retainedChanged(res.Delivered); why != "" {
+		c.Violation("c01:delivered-transaction-changed-later", why, witnessOf(scn, h, s, nil))
+		return
+	}
 	if c.WantSample() {
 		c.Sample(map[string]interface{}{"scenario": scn, "units": unitNames(h), "deliveries": len(res.Delivered), "stream_err": errStr(res.Err)})
 	}
